@@ -57,13 +57,14 @@ class Bin(object):
         return self.a.has_octal() or self.b.has_octal()
 
 
-def evaluate(n):
+def evaluate(n, limit=None):
     """Integer the expression denotes (integer arithmetic; '/' floors, defined for a >= 0, b > 0)."""
+    limit = limit or LIMIT
     if isinstance(n, (Lit, Name)):
         return n.value
     if isinstance(n, Neg):
-        return -evaluate(n.a)
-    a, b = evaluate(n.a), evaluate(n.b)
+        return -evaluate(n.a, limit)
+    a, b = evaluate(n.a, limit), evaluate(n.b, limit)
     if n.op == '+':
         r = a + b
     elif n.op == '-':
@@ -82,7 +83,7 @@ def evaluate(n):
         if b < 0 or b > 24 or a < 0:
             raise Invalid('shift domain')
         r = a >> b
-    if abs(r) >= LIMIT:
+    if abs(r) >= limit:
         raise Invalid('magnitude')
     return r
 
@@ -248,3 +249,35 @@ def host_value_32bit(n):
         return ev(ast.parse(txt, mode='eval'))
     except Exception:  # noqa
         return None
+
+
+BIG = [(1 << 53) + 1, (1 << 63) - 1, (1 << 64) - 1, 9007199254740993, 0x1000000000000000, 0x7FFFFFFFFFFFFFFF,
+       12345678901234567891, (1 << 62) + 3, 999999999999999999]
+
+
+def gen_big(rng, names, tries=200):
+    """Expression over 64-bit-scale literals and / * + - whose value fits a signed 64-bit integer.
+    Floating-point shortcuts (int(a / b)) round these; integer arithmetic does not."""
+    def leaf():
+        r = rng.random()
+        if names and r < 0.2:
+            nm, v = rng.choice(names)
+            return Name(nm, v)
+        if r < 0.7:
+            return Lit(rng.choice(BIG), rng.choice([10, 16]))
+        return Lit(rng.choice([1, 2, 3, 7, 10, 16, 1000, 65535, 0x10000000]), rng.choice([10, 16]))
+
+    def tree(d):
+        if d == 0 or rng.random() < 0.3:
+            return leaf()
+        return Bin(rng.choice(['/', '/', '*', '+', '-']), tree(d - 1), tree(d - 1))
+    for _ in range(tries):
+        t = Bin('/', tree(2), tree(1)) if rng.random() < 0.7 else tree(3)
+        try:
+            v = evaluate(t, 1 << 70)
+        except Invalid:
+            continue
+        if 0 <= v < (1 << 63):
+            return t, v
+    t = Lit((1 << 53) + 1, 10)
+    return t, t.value
